@@ -106,6 +106,19 @@ CHECKS = {
                 "float truncation int(1000*score) is compared exactly unless the float and exact truncations differ (counted as hazard).",
         "technique": "Lean 4 proof (sort/filter permutation and order lemmas) + recorded-stage-return replay correspondence with genotype()",
     },
+    "C12": {
+        "text": "Lean model of write_decomposition and of write_vcf as written. Machine-checked for every solution: a copy's listed variants are "
+                "exactly definition + added - missing, each once; the decomposition consists per copy of one empty row or one row per carried "
+                "variant (sound and complete); VCF records are one per variant with one-based POS; GT is exact for a single solution (or identical "
+                "solutions) without lost variants (vcf_gt_partial). The full VCF clause is false of model and code: closed counter-examples "
+                "(shared table across solution columns, lost variants still written, indel REF/ALT) are proved in Lean and replayed on the "
+                "implementation; they are known findings (a repair would change the recorded NA10860.vcf.expected). Ties on every run: real "
+                "write_decomposition text == model, real write_vcf records == model (as written); property oracle on the real text.",
+        "design_ref": "DESIGN.md section 4 (C12), 5",
+        "note": "Five known findings (VCF writer) listed in known_findings.json; any other deviation is reported. Header lines and the "
+                "output-kind dispatch of genotype() are exercised by C17/C14 runs, not modelled here.",
+        "technique": "Lean 4 proof (row exactness, permutation/dedup lemmas, closed counter-examples by kernel evaluation) + text-level differential correspondence",
+    },
 }
 
 NOT_YET = "check not built yet (work in progress; see DESIGN.md section 9 build order)"
